@@ -124,6 +124,31 @@ class Stats:
         self.t_exec = 0.0
 
 
+_QF_CACHE: dict = {}
+
+
+def _is_qf(f) -> bool:
+    """no quantifier anywhere inside (memoised on the hash-consed term id)"""
+    if isinstance(f, bool):
+        return True
+    i = f.get_id()
+    r = _QF_CACHE.get(i)
+    if r is None:
+        todo, r, seen = [f], True, set()
+        while todo:
+            t = todo.pop()
+            if z3.is_quantifier(t):
+                r = False
+                break
+            k = t.get_id()
+            if k in seen:
+                continue
+            seen.add(k)
+            todo.extend(t.children())
+        _QF_CACHE[i] = r
+    return r
+
+
 class Ex:
     def __init__(self, spec: FnSpec, world=None):
         self.spec = spec
@@ -261,6 +286,17 @@ class Ex:
         if not self.spec.feasibility:
             return True
         self.stats.feas_checks += 1
+        # stage 1: the quantifier-free part of the path condition alone (a subset: unsat here => unsat altogether); this
+        # is what decides contradictory flag tests (one event bit per record) without paying for the quantified axioms
+        qf = [p for p in self.pc if _is_qf(p)]
+        s = z3.Solver()
+        s.set("rlimit", self.spec.feas_rlimit)
+        s.add(*qf)
+        s.add(extra)
+        if s.check() == z3.unsat:
+            return False
+        if len(qf) == len(self.pc):
+            return True
         s = z3.Solver()
         s.set("rlimit", self.spec.feas_rlimit)
         s.add(*self.pc)
@@ -591,6 +627,10 @@ class Ex:
                 raise Unsupported(f"modifies {m}")
 
     def _havoc_val(self, v, hint):
+        if isinstance(v, VOpaque) and v.kind in ("emptydict", "emptyset", "emptylist"):
+            # a container literal the sidecar gives no type for, mutated inside the loop: its contents at the loop head are
+            # unknown and cannot be represented - never keep it 'empty' (that would be unsound)
+            raise Unsupported(f"local container `{hint}` is mutated in a loop and the sidecar declares no type for it (spec drift)")
         if isinstance(v, (VObj, VFunc, VClass, VGlobal, VOpaque, VBound)):
             return v
         if v is None:
@@ -773,6 +813,12 @@ class Ex:
     def store_item(self, cont, idx, v, node):
         if isinstance(cont, VOpaque) and cont.kind == "pydict":
             return cont
+        if isinstance(cont, VOpaque) and cont.kind == "emptydict":
+            # an untyped `{}` (a local the sidecar does not know): typed by its first store
+            try:
+                cont = TDict(ty_of(idx), ty_of(v)).empty()
+            except Exception as e:
+                raise Unsupported(f"item store on an untyped empty dict: {e}")
         if isinstance(cont, VDict):
             k = cont.kty.unwrap(idx)
             return cont.with_(dom=z3.Store(cont.dom, k, True), val=z3.Store(cont.val, k, cont.vty.unwrap(v)))
@@ -1160,6 +1206,8 @@ class Ex:
         return {ast.Gt: lambda: a > b, ast.GtE: lambda: a >= b, ast.Lt: lambda: a < b, ast.LtE: lambda: a <= b}[type(op)]()
 
     def contains(self, cont, x, node):
+        if isinstance(cont, VOpaque) and cont.kind in ("emptydict", "emptyset", "emptylist"):
+            return False
         if isinstance(cont, VSet):
             return z3.Select(cont.t, cont.ety.unwrap(x))
         if isinstance(cont, VDict):
